@@ -65,7 +65,7 @@ def translate(style, sql, params):
             return ":z%d" % keys.setdefault(m.group(1), len(keys))
         if m.group(2) is not None:
             return "?" + m.group(2)
-        if t == "%":
+        if t == "%" and style in ("format", "pyformat"):
             raise sqlite3.ProgrammingError("lone % in a %-formatted statement")
         return t
     out = _PH.sub(sub, sql)
@@ -321,6 +321,10 @@ class _FakeDBAPIConnection:
         return _FakeCursor()
 
 
+def hash_(s):
+    return sum(ord(c) * (i + 1) for i, c in enumerate(s))
+
+
 def deliver_foreign(dialect, stmt):
     """(statement, parameters) exactly as DefaultExecutionContext._init_compiled assembles them for a driver that is not
     executable here: the real execution context of the dialect over a connection that is never used"""
@@ -346,7 +350,7 @@ def main(chk):
         fam, mo, nb = plan
         cfg = tlc.cfg(constants=dict(Mode=tlc.q("model"), MaxOcc=mo, NBinds=nb, Family=tlc.q(fam)),
                       invariants=["DeliveryCorrect", "ParamsExact", "SwapSeen"])
-        return tlc.run("ParamStyle", cfg, os.path.join(chk.work, "tlc-model-%s-%d-%d" % plan), workers=1, timeout=900 if chk.quick else 3000,
+        return tlc.run("ParamStyle", cfg, os.path.join(chk.work, "tlc-model-%s-%d-%d" % plan), workers=2, timeout=900 if chk.quick else 3000,
                        env={"PARAM_TRACES": "/dev/null"}, keep_stdout=False)
 
     def names_run():
@@ -365,6 +369,8 @@ def main(chk):
         if r.violated:
             chk.violation(dict(spec="ParamStyle", action="TLC", invariant=r.violated, family=plan[0]),
                           "TLC: %s violated in ParamStyle.tla (%s)" % (r.violated, plan))
+        if r.distinct != 2 * len(r.json):
+            chk.machinery("model %s: %d statements printed but %d states (every statement must have been judged)" % (plan, len(r.json), r.distinct))
         for c in r.json:
             key = json.dumps(c["stmt"], sort_keys=True)
             if key not in seen:
@@ -468,6 +474,8 @@ def main(chk):
             tf.write(json.dumps(dict(id=tid2, style=style, sql=[{k: v for k, v in t_.items() if k != "tag"} for t_ in toks], params=p)) + "\n")
         # compile-only dialects of drivers without a server: the expanded statement must tokenize and account for every occurrence
         for dn, d in foreign.items():
+            if chk.quick and scope == "model" and (hash_(tid) + len(dn)) % 3:
+                continue        # quick: each statement goes to a third of the driver dialects
             s, expected, fam = builder.build(stmt, names)
             fsig = dict(spec="ParamStyle", style=d.paramstyle, scope=scope, family=fam, kinds=kinds, names=ncls, dialect=dn)
             try:
@@ -496,18 +504,22 @@ def main(chk):
         small = [x for x in todo if len(x[1]["occ"]) <= 2]
         large = [x for x in todo if len(x[1]["occ"]) > 2]
         rng.shuffle(large)
-        todo = small + large[:500]
+        todo = small + large[:300]
     for i, stmt in todo:
         names = NAMES_ESC if i % 2 else NAMES_PLAIN
         one("m%d" % i, stmt, names, "model")
     # ---- names that need escaping: a fixed shape (two plain binds in SELECT list and WHERE, one expanding IN with 2 values)
     shape = dict(occ=[dict(c="sel", b=1), dict(c="where", b=2), dict(c="in", b=3), dict(c="sel2", b=1)],
                  binds=[dict(kind="plain", n=0), dict(kind="plain", n=0), dict(kind="expanding", n=2)])
+    if chk.quick:           # every colliding name set, a seeded sample of the others
+        ok_cases = [c for c in name_cases if c["distinct"]]
+        rng.shuffle(ok_cases)
+        name_cases = [c for c in name_cases if not c["distinct"]] + ok_cases[:80]
     for i, nc in enumerate(name_cases):
         names = {1: nc["names"][0], 2: nc["names"][1], 3: nc["names"][2]}
         esc = lambda n: re.sub(r"[%():\[\]. ]", lambda m_: {"%": "P", "(": "A", ")": "Z", ":": "C"}.get(m_.group(0), "_"), n)
         e1, e2, e3 = (esc(n) for n in nc["names"])
-        kinds_ = (["escape"] if e1 == e2 else []) + (["expanded"] if {e3 + "_1", e3 + "_2"} & {e1, e2} else [])
+        kinds_ = (["escape"] if len({e1, e2, e3}) < 3 else []) + (["expanded"] if {e3 + "_1", e3 + "_2"} & {e1, e2} else [])
         if bool(kinds_) == nc["distinct"]:
             chk.machinery("the harness and ParamStyle.tla disagree on whether %r collide" % (nc["names"],))
         one("n%d" % i, shape, names, "names-distinct-keys" if nc["distinct"] else "names-colliding-keys:" + "+".join(kinds_))
